@@ -159,11 +159,13 @@ def apply_patch(root: str, patch_text: str):
         elif line.startswith("new file mode"):
             cur["new_file"] = True
         elif line.startswith("deleted file mode"):
-            return None
+            cur["deleted"] = True
         elif line.startswith("+++ "):
             tgt = line[4:].strip()
             cur["path"] = tgt[2:] if tgt.startswith("b/") else tgt
         elif line.startswith("--- "):
+            src_ = line[4:].strip()
+            cur["apath"] = src_[2:] if src_.startswith("a/") else None
             continue
         elif line.startswith("@@"):
             start = int(line.split()[1].split(",")[0][1:])
@@ -173,8 +175,13 @@ def apply_patch(root: str, patch_text: str):
                 continue
             cur["hunks"][-1]["lines"].append(line if line else " ")
     for f in files:
+        if f.get("deleted") and f.get("apath"):
+            overlay[f["apath"]] = None  # the module is gone (typically: turned into a package of the same name)
+            continue
         if not f["path"] or not f["hunks"]:
             continue
+        if not (f["path"].startswith("src/") and f["path"].endswith(".py")):
+            continue  # documentation / test files are not part of the analysed program
         path = os.path.join(root, f["path"])
         if f["new_file"]:
             src_lines = []
@@ -216,6 +223,8 @@ def _run_seeded(args):
     if overlay is None:
         return name, kind, "stale", "patch context not found in the current tree"
     for fpath, text in overlay.items():
+        if text is None:
+            continue
         try:
             compile(text, fpath, "exec")
         except SyntaxError as e:
